@@ -200,6 +200,7 @@ class Engine:
         self.fresh_base = 0
         self.ghost = {}
         self.axiom_terms = None
+        self.fresh_objs = {}
 
     # ------------------------------------------------------------------ utils
     def unsupported(self, node, what):
@@ -336,7 +337,9 @@ class Engine:
         self.set_comp("$alloc", a + 1)
         self.mentioned.add(clskey)
         self.assume(so.typeof(r) == self.cids.cid(clskey))
-        return SV(Val.ref(r), ty)
+        v = SV(Val.ref(r), ty)
+        self.fresh_objs[str(z3.simplify(v.term))] = ty
+        return v
 
     def refof(self, v, node=None):
         if isinstance(v, SV):
@@ -428,10 +431,17 @@ class Engine:
 
     def from_term(self, term, ty=None):
         t = z3.simplify(term)
-        c = self.closures.get(str(t))
+        key = str(t)
+        c = self.closures.get(key)
         if c is not None:
             return c[1]
+        fty = self.fresh_objs.get(key)
+        if fty is not None:
+            return SV(t, fty)       # object allocated on this path: its concrete class is known
         return SV(term, ty)
+
+    def is_fresh(self, v):
+        return isinstance(v, SV) and str(z3.simplify(v.term)) in self.fresh_objs
 
     def truthy(self, v, node=None):
         """z3 Bool: Python truthiness of a value"""
@@ -579,6 +589,8 @@ class Engine:
         """z3 Bool for isinstance(v, clsval)"""
         if isinstance(clsval, TupV):
             return z3.Or([self.isinstance_term(v, c, node) for c in clsval.items]) if clsval.items else z3.BoolVal(False)
+        if isinstance(clsval, SV) and parse_tag(clsval.ty)[0] == "tuple":
+            return isinstance_any(self.to_term(v, node), Val.elems(clsval.term))
         if isinstance(clsval, SV):
             # symbolic class object
             if isinstance(v, SV):
@@ -627,6 +639,7 @@ def has_quantifier(t):
 
 
 _truthy_obj = z3.Function("truthy_obj", I, B)
+isinstance_any = z3.Function("leaf_isinstance_any", Val, SeqV, B)
 
 
 def so_truthy_obj(r):
